@@ -10,7 +10,7 @@ TYPES = ['KPK', 'KPsK', 'KNBK', 'KXK', 'KQKR', 'KRNKR', 'KRBKR', 'KBPsK', 'KQKP'
 MATS = {'KPK': ['KPk'], 'KPsK': ['KPPk', 'KPPPk'], 'KNBK': ['KNBk'], 'KXK': ['KQk', 'KRk', 'KBBk', 'KQRk'], 'KQKR': ['KQkr'], 'KRNKR': ['KRNkr'], 'KRBKR': ['KRBkr'],
         'KBPsK': ['KBPk', 'KBPPk'], 'KQKP': ['KQkp'], 'KRKP': ['KRkp'], 'KNNK': ['KNNk'], 'KNNKP': ['KNNkp'], 'KBPsKB': ['KBPkb', 'KBPPkb'], 'KRKB': ['KRkb'], 'KRKN': ['KRkn'],
         'KQKRPs': ['KQkrp', 'KQkrpp'], 'KmmKm': ['KBBkn', 'KBNkb', 'KNNkb', 'KBBkb']}
-QUICK_SKIP = {'KPPPk', 'KBPPkb', 'KQkrpp', 'KQRk'}
+QUICK_SKIP = {'KPPPk', 'KQRk'}
 EGB = ('EG_', 'endgame::EndgameBase', '%"class.engine::endgame::EndgameBase"', ['strongSide', 'weakSide', 'strongKing', 'weakKing'])
 
 def fn(kind, k): return '_ZNK6engine7endgame12_GLOBAL__N_17EndgameILNS0_11EndgameTypeE%dEE%sERKNS_8PositionE' % (k, kind)
